@@ -41,6 +41,8 @@ PROPS = {
     'C17': dict(engine='disc', module='Kvass.Props.C17', search_n=1500,
                 assumptions=['a discovered target is represented by the outcome of its translation (key = final labels + URL, dropped, rejected); the label pipeline itself is C02/C15', 'TargetsDiscovery methods are atomic under their mutex (goroutine interleavings inside a method are not modelled)'],
                 partial='update / reload / group theorems are per step, for every state; the explorer table is proved for reloads and compared with the real Explore on every history; readers running concurrently with writers are exercised only by the snapshot re-comparison'),
+    'C19': dict(engine='replicas', module='Kvass.Props.C19', search_n=3000, assumptions=COORD_ASSUME,
+                partial='independence is a theorem about the model of runOnce (map over replicas); that the Go code really is that map - no state carried from one replica to the next, explorer status objects not written through shared pointers - is what the replicas engine checks on every run (matching each replica next to the others against Coord.cycle of that replica alone, 1-2 cycles, and comparing explorer objects before/after); pointer aliasing is outside the value-level model'),
     'C20': dict(engine='explore', module='Kvass.Props.C20', timeout=3000, search_n=150,
                 assumptions=['worker goroutines and timers are modelled as atomic steps (start / finish / timer) in arbitrary interleaving; the real channel is FIFO, the model lets a worker take any queued entry', 'the scrape manager keeps every job during reloads in the harness (a probe of an unknown job fails without an HTTP request)'],
                 partial='token / success / retry / estimate theorems hold per entry (target identity) for every interleaving; per hash the property has the listed known findings when a target disappears and is discovered again while its old entry still has a queued or running probe; liveness is stated per step (failed probe arms a timer, the timer re-queues iff still listed), eventual success is checked by the engine'),
@@ -52,6 +54,7 @@ PROPS = {
 }
 
 LEVEL_TEXT = {
+    'C19': 'Machine-checked theorems (Lean 4): runOnce yields for replica i exactly Coord.cycle of i\'s own reports, one result per replica whatever fails, hence C01/C04 guarantees per replica. The tie to the code is the replicas engine: the real runOnce with 2-3 replicas (list errors, scale errors, unready replicas, different placements) over 1-2 cycles; every replica\'s requests must be an outcome of the model on that replica alone, explorer status objects must be unchanged.',
     'C20': 'Machine-checked theorems (Lean 4) by induction over every interleaving of gets, discovery updates, reloads, probe starts, probe results and retry timers: an entry owns at most one token (queued / in flight / sleeping), tokens exist only for asked, not yet successful entries, no token after success, a failed probe arms exactly one timer that re-queues iff the same entry is still listed, the estimate is the successful probe\'s counts. Conditions regenerated from explore.go; linearised event logs of the real Explore with 1-3 workers are validated against the model with timers firing at any moment.',
     'C17': 'Machine-checked theorems (Lean 4), for every state and every update / reload: the sets of a job in an update become exactly its translation, other jobs keep theirs, a reload keeps listed jobs unchanged and removes the others in one step, all dropped targets are kept, a rejected target does not affect the rest of its group, explorer entries follow reloads. Conditions regenerated from discovery.go/translate.go/explore.go; validated on random histories through the real Run channel, ApplyConfig and Explore, with snapshot re-comparison.',
     'C12': 'Machine-checked theorems (Lean 4): for every chunking of the body and every sequence of short writes the tee reader forwards exactly the body (induction over chunks and over the short-write loop), and in every successful scenario the proxy answers 200 with exactly those bytes whether or not the target is assigned. Loop conditions regenerated from reader.go/proxy.go; validated against the real Proxy behind an HTTP server with scripted read sizes, gzip, all payload kinds.',
@@ -74,10 +77,10 @@ NOT_APPLICABLE = {
     'C11': 'check under construction',
     'C14': 'check under construction',
     'C15': 'check under construction', 'C16': 'check under construction', 
-    'C19': 'check under construction',
 }
 
 ENGINES = [
+    {'name': 'replicas', 'path': 'harness/cmd/kvh/replicas.go', 'kind_free_text': 'real Coordinator.runOnce with several replicas sharing options / discovered set / explorer objects, 1-2 cycles; per-replica outcomes matched against Coord.cycle alone through the coord driver'},
     {'name': 'explore', 'path': 'harness/cmd/kvh/explore.go', 'kind_free_text': 'real Explore.Run with 1-3 workers; probes block in an in-memory transport until released with a chosen result; event log validated against Explore.step (set-of-states simulation), plus per-hash monitors'},
     {'name': 'disc', 'path': 'harness/cmd/kvh/disc.go', 'kind_free_text': 'real TargetsDiscovery fed through Run\'s channel, ApplyConfig, Explore.UpdateTargets/ApplyConfig/Get; histories of updates and reloads trace-validated against Disc.step'},
     {'name': 'proxy', 'path': 'harness/cmd/kvh/proxy.go', 'kind_free_text': 'real sidecar Proxy behind an httptest server, real HTTP client, in-memory target with scripted read sizes / cut offsets / error kinds'},
